@@ -37,6 +37,9 @@ type opRec struct {
 	Secret bool   `json:"secret,omitempty"`
 	Crown  bool   `json:"crown,omitempty"`
 	Model  bool   `json:"model"` // the reference model knows the record of this op
+	// NoAcc: the written record has no accessor (a Wrapper that is not JSON or has no
+	// data): prefix-only queries match it, queries with a condition cannot be evaluated
+	NoAcc bool `json:"no_accessor,omitempty"`
 }
 
 type feedEl struct {
@@ -165,6 +168,24 @@ func (wr *writerRun) do(r *run, op *OpSpec) *opRec {
 				return nil
 			}
 		}
+		after = func() { wr.keys[key] = ns }
+	case "putwrap":
+		wr.counter++
+		token := fmt.Sprintf("w%d-%d", wr.spec.ID, wr.counter)
+		ns := &keyState{token: token, score: op.Score, tag: op.Tag, secret: op.PreSecret || wr.spec.Iface.Secret, crown: op.PreCrown || wr.spec.Iface.Crown}
+		nw, err := newWrapper(r.w.db, key, token, op.Score, op.Tag, op.Format)
+		if err != nil {
+			panic(err)
+		}
+		if op.PreSecret {
+			nw.Meta().MakeSecret()
+		}
+		if op.PreCrown {
+			nw.Meta().MakeCrownJewel()
+		}
+		setAttrs(ns)
+		rec.NoAcc = op.Format != "json"
+		fn = func() error { return wr.iface.Put(nw) }
 		after = func() { wr.keys[key] = ns }
 	case "del", "secret", "crown", "insert", "expiry":
 		// operations on the stored record: load it, Options.Apply (adds the interface's
@@ -461,6 +482,9 @@ type groupKey struct {
 }
 
 func (s *subRun) shareClass(r *run) string {
+	if r.sc.Class == "firstuse" {
+		return "concurrent-first-use"
+	}
 	for _, o := range r.subs {
 		if o != s && o.q == s.q {
 			return "shared-query"
@@ -470,6 +494,9 @@ func (s *subRun) shareClass(r *run) string {
 }
 
 func (r *run) anyShared() string {
+	if r.sc.Class == "firstuse" {
+		return "concurrent-first-use"
+	}
 	for _, s := range r.subs {
 		if s.shareClass(r) == "shared-query" {
 			return "shared-query"
@@ -492,6 +519,11 @@ func (s *subRun) matchReason(op *opRec) string {
 	switch {
 	case !strings.HasPrefix(op.Key, s.spec.Prefix):
 		return "prefix"
+	case op.NoAcc && s.spec.Cond != nil:
+		if (op.Crown && !s.spec.Local) || (op.Secret && !s.spec.Internal) {
+			return "privilege"
+		}
+		return "noaccessor"
 	case !s.spec.Cond.eval(op.Score, op.Tag):
 		return "condition"
 	case (op.Crown && !s.spec.Local) || (op.Secret && !s.spec.Internal):
@@ -626,7 +658,7 @@ func (r *run) judge(b *vlib.Batch) {
 					continue
 				}
 				reason := s.matchReason(op)
-				if reason != "" {
+				if reason != "" && reason != "noaccessor" {
 					if op.OK {
 						b.Count("nondelivery_expected_"+reason, 1)
 					}
@@ -634,6 +666,12 @@ func (r *run) judge(b *vlib.Batch) {
 				}
 				c := &cand{op: op}
 				switch {
+				case reason == "noaccessor":
+					// a condition cannot be evaluated on a record without accessor: the
+					// statement does not say which way this goes (the code does not
+					// deliver); neither demanded nor forbidden
+					c.status, c.side = stOptional, 2
+					b.Count("condition_not_evaluable_no_accessor", 1)
 				case op.Panic != "":
 					c.status, c.side = stOptional, 2
 				case op.Ret < s.SubCall:
